@@ -81,6 +81,9 @@ def cases(rng, tier):
         for wrong in ("client", "claim", "redirect", "noredirect"):
             out.append(il_case(2, (0, 0, 1, 1), oidc, jwt, wrong=wrong))
             out.append(il_case(2, (0, 1, 0, 1), oidc, jwt, wrong=wrong))
+    for oidc, jwt in combos:
+        for order in (0, 1):
+            out.append({"t": "sso", "oidc": oidc, "jwt": jwt, "order": order, "offline": rng.random() < 0.5})
     # PKCE add-on in front of the token endpoint: the used code is presented again with the right / a wrong / no verifier
     for oidc, jwt in combos:
         for rep in ("right", "wrong", "none"):
@@ -101,6 +104,28 @@ def _ops_for(c):
         return c["ops"]
     ops, _ = prov.gen_adaptive(random.Random(c["gen_seed"]), c["n"], oidc=c["oidc"], jwt=c["jwt"], weights=c.get("w"))
     return ops
+
+
+def _sso_impl(c):
+    """the user returns with the provider's session cookie, the client uses its other redirect_uri: the new code is redeemable with THAT one only"""
+    R2 = "https://client_1.example.com/cb2"
+    R = prov.Runner(c["oidc"], c["jwt"])
+    ops, steps = [], []
+
+    def do(o):
+        r = R.op(o)
+        ops.append(o)
+        steps.append({"out": prov.canon_outcome(r), "raw": r, "proj": R.projection(), "now": prov.clock.CLOCK.t - prov.T0})
+        return r
+    sc = ["openid", "email"] + (["offline_access"] if c.get("offline") else [])
+    r1 = do(["authorize", "diana", "client_1", sc, RED])
+    r2 = do(["authorize", "diana", "client_1", sc, R2, "sso"])
+    if r1[0] == "code" and r2[0] == "code":
+        for code, red in ((r2[1], RED), (r2[1], R2), (r1[1], R2), (r1[1], RED)) if c.get("order") else ((r1[1], R2), (r2[1], RED), (r1[1], RED), (r2[1], R2)):
+            x = do(["tokenParse", "client_1", code, red])
+            if x[0] == "parsed":
+                do(["tokenProcess", 0])
+    return {"ops": ops, "steps": steps}
 
 
 def _pkce_impl(c):
@@ -129,6 +154,8 @@ def _pkce_impl(c):
 def impl(c):
     if c["t"] == "pkce":
         return _pkce_impl(c)
+    if c["t"] == "sso":
+        return _sso_impl(c)
     ops = _ops_for(c)
     R = prov.Runner(c["oidc"], c["jwt"], **c.get("runner", {}))
     steps = []
@@ -211,6 +238,18 @@ def nontrivial(c, obs):
 
 
 def corpus():
+    R2 = "https://client_1.example.com/cb2"
+    sso = []
+    for oidc, jwt in ((True, False), (False, False), (True, True)):
+        # the user returns with the session cookie and the client uses its OTHER redirect_uri: the new code is bound to that one
+        sso.append({"t": "hist", "oidc": oidc, "jwt": jwt,
+                    "ops": [["authorize", "diana", "client_1", ["openid", "email"], RED], ["authorize", "diana", "client_1", ["openid", "email"], R2, "sso"],
+                            ["tokenParse", "client_1", 3, RED], ["tokenProcess", 0], ["tokenParse", "client_1", 3, R2], ["tokenProcess", 0],
+                            ["tokenParse", "client_1", 1, R2], ["tokenProcess", 0], ["tokenParse", "client_1", 1, RED], ["tokenProcess", 0]]})
+    return sso + _corpus0()
+
+
+def _corpus0():
     # F-C02-a: authz configuration without authorization_code.expires_in; the code handler's lifetime (600 s) must then bound the code
     return [{"t": "hist", "oidc": True, "jwt": False, "runner": {"usage": "no_code_expiry"}, "code_lifetime": 600,
              "ops": [["authorize", "diana", "client_1", ["openid"], RED], ["tick", 20000], ["tokenParse", "client_1", 1, RED], ["tokenProcess", 0]]}]
